@@ -13,7 +13,7 @@ Clause → theorem
 | every handler the text names (open / enlarge / draw of vault, locker, lend, borrow; vault repay/close/withdraw) has the breaker guard on every route, before its first write | `breaker_list_guarded` (+ `breaker_rejected_on_every_route`) |
 | every debt-minting handler has the ESM guard on every route, before its first write | `esm_list_guarded` (+ `esm_rejected_on_every_route`) |
 | vault withdraw has the cool-off guard before its first write | `cooloff_list_guarded` |
-| no price-lookup error is swallowed into a success; which handlers look prices up | `no_price_error_swallowed`, `price_guard_pinned`, `price_dominates_pinned` |
+| no price-lookup error is swallowed into a success or overwritten before it is tested; which handlers look prices up | `no_price_error_swallowed`, `price_errors_never_overwritten`, `price_errors_ignored_pinned`, `price_calls_checked_pinned`, `price_guard_pinned`, `price_dominates_pinned` |
 | sweeps / auction starters skip controlled apps | `sweeps_skip_controlled`, `sweeps_pinned` |
 | what the code guards beyond the text | `breaker_guarded_pinned`, `esm_guarded_pinned` |
 
@@ -136,8 +136,45 @@ theorem spot_vault_withdraw :
           (4, false, "coolOff: after: ctx.BlockTime().After(esmStatus.EndTime) && status"),
           (1, false, "ownerEq: userVault.Owner != msg.From")] := by decide +kernel
 
-/-- price lookups: never swallowed into a success … -/
+/-- price lookups: never swallowed into a success (an `if err != nil` branch returning ok, or — `swallow` items of class
+priceLookup are also emitted for this — an error variable overwritten before it was tested) … -/
 theorem no_price_error_swallowed : ∀ h ∈ handlers, swallowsPrice h = false := by decide +kernel
+
+/-- … also not by OVERWRITING: at no call site of `CalcAssetPrice` / `GetLatestPrice` in keeper code is the returned error
+assigned again before it was tested (`a, err := price(x); b, err := price(y); if err != nil` loses the first error and
+lets `x` be valued at zero). Every call site is either `checked` or explicitly `ignored` (`_`). -/
+theorem price_errors_never_overwritten :
+    ∀ c ∈ priceCalls, c.status = "checked" ∨ c.status = "ignored" := by decide +kernel
+
+/-- the call sites that discard the error on purpose (`value, _ := …`), reviewed: none of them is on the way of a user
+message of the vault / locker / lend handlers — `CreteNewBorrow` (lend: re-creating a borrow after an auction),
+`UpdateLockedBorrows` (liquidation bookkeeping after the position is locked), liquidity reward / fee weighting (a zero weight
+for an un-priced pool), vault query handlers. -/
+theorem price_errors_ignored_pinned :
+    (priceCalls.filter fun c => c.status == "ignored").map (fun c => (c.file, c.fn)) =
+      [("x/lend/keeper/keeper.go", "CreteNewBorrow"), ("x/lend/keeper/keeper.go", "CreteNewBorrow"),
+       ("x/lend/keeper/keeper.go", "CreteNewBorrow"),
+       ("x/liquidation/keeper/liquidate_borrow.go", "UpdateLockedBorrows"),
+       ("x/liquidation/keeper/liquidate_borrow.go", "UpdateLockedBorrows"),
+       ("x/liquidation/keeper/liquidate_borrow.go", "UpdateLockedBorrows"),
+       ("x/liquidity/keeper/pool.go", "TransferFundsForSwapFeeDistribution"),
+       ("x/liquidity/keeper/pool.go", "TransferFundsForSwapFeeDistribution"),
+       ("x/liquidity/keeper/rewards.go", "GetAggregatedChildPoolContributions"),
+       ("x/liquidity/keeper/rewards.go", "GetFarmingRewardsData"),
+       ("x/vault/keeper/query_server.go", "QueryTVLByApp"), ("x/vault/keeper/query_server.go", "QueryUserMyPositionByApp"),
+       ("x/vault/keeper/query_server.go", "QueryUserMyPositionByApp")] := by decide +kernel
+
+/-- the checked call sites, by function (the valuation functions every price-dependent handler goes through) -/
+theorem price_calls_checked_pinned :
+    (priceCalls.filter fun c => c.status == "checked").map (fun c => (c.fn, c.asset)) =
+      [("LendDutchActivator", "assetIn.Id"), ("LendDutchActivator", "assetOut.Id"), ("CheckSupplyCap", "assetID"),
+       ("BorrowAsset", "pair.AssetOut"), ("BorrowAsset", "lendPos.AssetID"), ("BorrowAsset", "firstTransitAssetID"),
+       ("BorrowAsset", "secondTransitAssetID"), ("DepositBorrowAsset", "pair.AssetIn"),
+       ("DepositBorrowAsset", "firstTransitAssetID"), ("DepositBorrowAsset", "secondTransitAssetID"),
+       ("CalculateCollateralizationRatio", "assetIn.Id"), ("CalculateCollateralizationRatio", "assetOut.Id"),
+       ("LiquidateVaults", "assetIn.Id"), ("MsgLiquidateVault", "assetIn.Id"),
+       ("CalculateCollateralizationRatio", "assetInData.Id"), ("CalculateCollateralizationRatio", "assetOutData.Id")] := by
+  decide +kernel
 
 /-- every operation of the expected list contains a price lookup whose error is returned (conditional in the vault module:
 after ESM the snapshot price is used instead) -/
